@@ -62,9 +62,28 @@ inductive CtorOp where
   | unknown (text : String)
   deriving DecidableEq, Repr
 
+/-- which `_get_bin_power_spectral_density` the class ends up with (most derived override) -/
+inductive BinPsd where
+  | trapezoid      -- base class: `0.5 * (self.evaluate(lower) + self.evaluate(upper))`
+  | gaussErf       -- GaussianSpectrum: `0.5 * (erf((upper − μ)k) − erf((lower − μ)k)) / delta`
+  | constDensity   -- `1.0 / (self._max_wavelength - self._min_wavelength)`
+  | none           -- not a spectrum
+  | unknown
+  deriving DecidableEq, Repr
+
+/-- which `evaluate` the class has -/
+inductive EvalKind where
+  | constStep      -- ConstantSpectrum: `1/(max − min)` on `[min, max]`, else 0
+  | gauss          -- GaussianSpectrum: `_normalisation * exp(-0.5 * ((x − μ) * _recip_stddev)²)`
+  | none
+  | unknown
+  deriving DecidableEq, Repr
+
 structure Cls where
   name : String
   isSpectrum : Bool
+  binPsd : BinPsd
+  evaluate : EvalKind
   setters : List Setter
   getters : List Getter
   rebuildReads : List String       -- fields read by `_function_changed` / `_update_cache` (closed over self-calls)
@@ -330,11 +349,21 @@ def geometry (E : Ext α) (t : Cls) (o : Obj α) : Option (List (Seg α)) :=
   | [r, l] => generateSegmentedCylinder E (o.fields r) (o.fields l)
   | _ => none
 
-/-- the bin density function of the class, on the captured fields -/
+/-- `evaluate(x)` of the class on a field valuation -/
+def evalFn (E : Ext α) (t : Cls) (f : String → α) : α → α :=
+  match t.evaluate with
+  | .gauss => gaussEval E.exp (f "_normalisation") (f "_mean") (f "_recip_stddev")
+  | .constStep => constEval (f "_min_wavelength") (f "_max_wavelength")
+  | _ => fun _ => 0
+
+/-- the bin density function the class ends up with, on the captured fields -/
 def specBinPsd (E : Ext α) (t : Cls) (s : String → α) : α → α → α :=
-  if t.name = "GaussianSpectrum" then
+  match t.binPsd with
+  | .gaussErf =>
     gaussBinPsd E.erf (s "_mean") (s "_norm_cdf") (delta (s "_min_wavelength") (s "_max_wavelength") (E.toNat (s "_bins")))
-  else trapezoidPsd (constEval (s "_min_wavelength") (s "_max_wavelength"))
+  | .trapezoid => trapezoidPsd (evalFn E t s)
+  | .constDensity => fun _ _ => 1.0 / (s "_max_wavelength" - s "_min_wavelength")
+  | _ => fun _ _ => 0
 
 def specWavelengths (E : Ext α) (_t : Cls) (o : Obj α) : List α :=
   wavelengths (o.snap "_min_wavelength") (o.snap "_max_wavelength") (E.toNat (o.snap "_bins"))
@@ -360,10 +389,7 @@ def getterList (E : Ext α) (t : Cls) (o : Obj α) (name : String) : Option (Lis
     else none
 
 /-- `spectrum(x)` (Function1D call): reads the *current* fields -/
-def specEvaluate (E : Ext α) (t : Cls) (o : Obj α) (x : α) : α :=
-  let f := o.fields
-  if t.name = "GaussianSpectrum" then gaussEval E.exp (f "_normalisation") (f "_mean") (f "_recip_stddev") x
-  else constEval (f "_min_wavelength") (f "_max_wavelength") x
+def specEvaluate (E : Ext α) (t : Cls) (o : Obj α) (x : α) : α := evalFn E t o.fields x
 
 end
 end Cherab.Laser
